@@ -16,8 +16,10 @@ from hxsim.stepclock import SimAbort, StepBudgetExceeded, StepClock
 
 PROPERTY = 'C03'
 STREAMS = {
-    'threads': {'quick': 7000, 'thorough': 200000, 'chunk': 100},
+    'threads': {'quick': 12000, 'thorough': 300000, 'chunk': 100},
     'nest': {'quick': 9000, 'thorough': 250000, 'chunk': 150},
+    # every step k of evaluation A: A runs k steps, B runs one complete evaluation, A resumes
+    'sweep': {'quick': 1100, 'thorough': 40000, 'chunk': 10},
 }
 CLOCK0 = '2024-02-29T13:14:15.161718'
 
@@ -27,9 +29,29 @@ def config(tier, seed):
 
 
 # ---------------------------------------------------------------- generation: threads
+def gen_sweep(rng, i):
+    slots = [scen.gen_slot(rng, fault=0.0, hostile=False, excs=scen.BENIGN_EXC) for _ in range(2)]
+    forms = []
+    names = formgen.fn_names()
+    same = names[i % len(names)] if rng.random() < 0.75 else None    # walks all built-ins as i grows
+    for t in range(2):
+        env = scen.slot_env(slots[t])
+        if same is not None:
+            f = formgen.tame(formgen.builtin_call(rng, env, 1, same, force_typed=rng.random() < 0.85))
+        else:
+            f = formgen.g3_tree(rng, env, rng.choice([1, 2]))
+        forms.append(f)
+    return {'engine': 'sweep', 'slots': slots, 'threads': [{'slots': [0], 'tasks': [[0, forms[0]]]},
+                                                            {'slots': [1], 'tasks': [[1, forms[1]]]}],
+            'clock': CLOCK0, 'rand': 0.25, 'samefn': same, 'swap': rng.random() < 0.5,
+            'points': 'all' if rng.random() < 0.1 else 'function_body'}
+
+
 def gen(stream, rng, i, cfg):
     if stream == 'nest':
         return gen_nest(rng, i)
+    if stream == 'sweep':
+        return gen_sweep(rng, i)
     nthreads = rng.choice([2, 2, 2, 3, 4])
     fault = rng.choice([0.0, 0.0, 0.15, 0.4])
     slots, threads = [], []
@@ -41,7 +63,19 @@ def gen(stream, rng, i, cfg):
         threads.append({'slots': own, 'tasks': []})
     all_names = sorted(set(n for s in slots for n in s['variables']))
     all_fns = sorted(set(n for s in slots for n in s['functions']))
+    # family 'samefn': every thread calls the same built-in with different arguments at the same time, so that
+    # state shared *inside* one function's implementation (memo, scratch buffer) is touched by all of them
+    samefn = rng.choice(formgen.fn_names()) if rng.random() < 0.4 else None
     for t, th in enumerate(threads):
+        if samefn is not None:
+            for _ in range(rng.choice([1, 2, 3])):
+                s = rng.choice(th['slots'])
+                env = scen.slot_env(slots[s])
+                f = formgen.tame(formgen.builtin_call(rng, env, rng.choice([1, 2]), samefn))
+                if rng.random() < 0.3:
+                    f = f + rng.choice(['+1', '&"x"', '=1'])
+                th['tasks'].append([s, f])
+            continue
         for _ in range(rng.choice([1, 1, 2, 3, 6])):
             s = rng.choice(th['slots'])
             env = scen.slot_env(slots[s], extra_unbound=[n for n in all_names if n not in slots[s]['variables']])
@@ -63,6 +97,7 @@ def gen(stream, rng, i, cfg):
             slots[a]['functions']['NEST0'] = [{'a': 'nested', 'slot': b, 'f': formgen.g3_tree(rng, scen.slot_env(slots[b]), 2)}]
             th['tasks'].append([a, 'NEST0()' + rng.choice(['', '+1', '&"x"'])])
     sc = {'engine': 'threads', 'slots': slots, 'threads': threads, 'clock': CLOCK0, 'rand': rng.choice([0.0, 0.25, 0.75]),
+          'samefn': samefn,
           'opcode': False}   # bytecode granularity dropped: see DESIGN 2.3 (not deterministic on 3.12)
     rng.random()     # (keeps the stream of draws stable after the opcode option was removed)
     kind = rng.choice(['random', 'random', 'single', 'pingpong'])
@@ -251,7 +286,9 @@ def execute_threads(sc, stats):
     stats['steps'] += sum(c.steps for c in baton.clocks) + refclock.steps
     stats['fault:ctx_switch'] += baton.switches
     fam = sc.get('family', 'random')
-    stats['fault:schedule_' + fam] += 1
+    stats['fault:schedule_' + fam] += 1 if fam != 'sweep' else 0
+    if sc.get('samefn'):
+        stats['probe:same_function_in_all_threads'] += 1
     if sc.get('opcode'):
         stats['fault:opcode_granularity'] += 1
     for (fn, ln), n in baton.switch_locs.items():
@@ -402,9 +439,75 @@ def execute_nest(sc, stats):
     return vio
 
 
+def execute_sweep(sc, stats):
+    """Single interposition at EVERY step of A's evaluation (the quantifier of the property, literally)."""
+    _set_env(sc)
+    elems = sum(scen.host_elements(s) for s in sc['slots'])
+    a, b = (1, 0) if sc.get('swap') else (0, 1)
+    tasks = [sc['threads'][0]['tasks'][0], sc['threads'][1]['tasks'][0]]
+    refclock = StepClock(steplog=True)
+    solo = []
+    nsteps = []
+    logs = []
+    for t in (0, 1):
+        specs = [sc['slots'][k] if k == t else None for k in (0, 1)]
+        w = World(specs)
+        s0 = refclock.steps
+        solo.append(_eval(w, refclock, tasks[t][0], tasks[t][1], elems))
+        nsteps.append(refclock.steps - s0)
+        logs.append(refclock.steplog[s0:refclock.steps])
+    world = World(sc['slots'])
+    n = min(nsteps[a], 4000)
+    stats['evals'] += 2
+    stats['steps'] += refclock.steps
+    vio = []
+    if 'ks' in sc:
+        ks = list(sc['ks'])          # replay / shrinking: the interposition points, literally
+    elif sc.get('points') == 'all':
+        ks = list(range(1, n + 1))
+    else:
+        # every step executed in the formula / helper modules (where function-specific shared state would live:
+        # lexer, LR engine and Parser steps are common to all formulas and are swept in the 'all' scenarios and by
+        # the random schedules), plus every 13th other step
+        off = sc.get('_run', 0) % 13
+        ks = [k for k in range(1, n + 1) if ('/formulas/' in logs[a][k - 1] or '/helper/' in logs[a][k - 1]) or (k % 13 == off)]
+        # a switch *before* line k means k-1 steps have run
+        ks = sorted(set(ks) | set(k - 1 for k in ks if k > 1))
+    for k in ks:
+        baton = Baton(2, schedule=[[a, k], [b, 1 << 40]])
+        got = [None, None]
+
+        def make_body(t):
+            def body(clock):
+                got[t] = _eval(world, clock, tasks[t][0], tasks[t][1], elems)
+            return body
+        baton.run([make_body(0), make_body(1)])
+        if baton.errors:
+            raise HarnessStuck('simulated thread failed in the harness: %s' % baton.errors[:2])
+        stats['evals'] += 2
+        stats['steps'] += baton.clocks[0].steps + baton.clocks[1].steps
+        stats['fault:single_interposition_point'] += 1
+        if got != solo:
+            t = 0 if got[0] != solo[0] else 1
+            vio.append({'invariant': 'T1_solo_outcome', 'sig': 'T1',
+                        'detail': {'thread': t, 'formula': _esc(tasks[t][1]), 'other_formula': _esc(tasks[1 - t][1]),
+                                   'concurrent': got[t], 'solo': solo[t], 'interposed_after_step': k, 'of_steps': nsteps[a],
+                                   'suspended_thread': a}})
+            # replay = the rounds up to and including this one (an earlier round may have left state behind)
+            sc['ks'] = ks[:ks.index(k) + 1]
+            break
+    stats['probe:sweep_%s' % sc.get('points', 'all')] += 1
+    stats['probe:sweep_points[%s]' % ('<=500' if n <= 500 else ('<=1500' if n <= 1500 else '>1500'))] += 1
+    sc['_nt'] = n > 0
+    sc['_schedule_observed'] = [n]
+    return vio
+
+
 def execute(sc, stats):
     if sc.get('engine') == 'nest':
         return execute_nest(sc, stats)
+    if sc.get('engine') == 'sweep':
+        return execute_sweep(sc, stats)
     return execute_threads(sc, stats)
 
 
@@ -422,6 +525,22 @@ def shrink_candidates(sc):
     if sc.get('engine') == 'nest':
         for c in _shrink_nest(sc):
             yield c
+        return
+    if sc.get('engine') == 'sweep':
+        ks = sc.get('ks', [])
+        if len(ks) > 1:
+            d = dict(sc)
+            d['ks'] = ks[-1:]
+            yield d
+            for c in scen.shrink_list(ks[:-1], 0):
+                d = dict(sc)
+                d['ks'] = c + ks[-1:]
+                yield d
+        for si, slot in enumerate(sc['slots']):
+            for s in scen.shrink_slot(slot):
+                d = dict(sc)
+                d['slots'] = sc['slots'][:si] + [s] + sc['slots'][si + 1:]
+                yield d
         return
     threads = sc['threads']
     # drop whole threads (keep >= 2), drop tasks
@@ -498,13 +617,15 @@ def describe():
         'rule': 'threads: one run = 2-4 real caller threads, each with 1-6 formulas on its own pre-built parser(s), executed '
                 'under a seeded baton scheduler that pre-empts at line boundaries (families: random with mean '
                 '3/30/300/3000 steps, single interposition at step k, ping-pong every n steps), compared with each thread run '
-                'alone in a world that holds only its own parsers; nest: one run = an outer evaluation whose callback site '
+                'alone in a world that holds only its own parsers; sweep: two formulas (75%: the same built-in, argument shapes chosen by '
+                'parameter name, the built-in walking the whole registry with the run index) where B\'s complete evaluation is '
+                'interposed after EVERY step k of A\'s; nest: one run = an outer evaluation whose callback site '
                 '(custom function or listener of any of the four event kinds) evaluates a complete formula on another pre-built '
                 'parser, the same parser, or a parser built on the spot, to depth 2, compared bottom-up with nesting-free '
                 'references; evaluations = top-level evaluations under the schedule / outer evaluations; distinct = distinct '
                 '(slots, tasks, observed decision list) resp. (slots, outer formula); non-trivial = at least one context switch '
                 'happened inside an evaluation resp. at least one nested evaluation was actually performed',
-        'fault_kinds': ['ctx_switch', 'schedule_random', 'schedule_single', 'schedule_pingpong',
+        'fault_kinds': ['ctx_switch', 'schedule_random', 'schedule_single', 'schedule_pingpong', 'single_interposition_point',
                         'nested_other', 'nested_same', 'nested_build', 'nested_depth2', 'cb_raise', 'listener_raise'],
         'real_vs_stub': {'hotxlfp (all of it)': 'real', 'ply lex/yacc, dateutil': 'real', 'host callbacks': 'scripted',
                          'caller threads': 'real threading.Thread objects; who runs is decided only by the simulator (baton)',
